@@ -263,6 +263,8 @@ impl KeyValueStore {
                     [state.mem_seq_no, imm_trigger, state.seq_no],
                 );
                 while !wait_guard.is_head() {
+                    #[cfg(rescrv_blue_verif)]
+                    crate::verif::point("kvs.flush.wait.locked", [state.mem_seq_no, imm_trigger, 0]);
                     state = wait_guard.naked_wait(state);
                 }
                 drop(wait_guard);
@@ -501,6 +503,12 @@ impl KeyValueStore {
                 seq_no,
             )
         };
+        // (declared after the wait guard: on an early return it is dropped, and reports, before
+        // the guard unlinks)
+        #[cfg(rescrv_blue_verif)]
+        let verif_failed = crate::verif::FailedWrite::new(verif_seq_no);
+        #[cfg(rescrv_blue_verif)]
+        crate::verif::point("kvs.write.linked", [verif_seq_no, 0, 0]);
         let mut log_batch = sst::log::WriteBatch::default();
         for entry in batch.entries.iter() {
             log_batch.insert(KeyValueRef::from(entry))?;
@@ -515,6 +523,8 @@ impl KeyValueStore {
         crate::verif::point("kvs.write.inserted", [verif_seq_no, 0, 0]);
         let mut state = self.state.lock().unwrap();
         while !wait_guard.is_head() {
+            #[cfg(rescrv_blue_verif)]
+            crate::verif::point("kvs.write.wait.locked", [verif_seq_no, 0, 0]);
             state = wait_guard.naked_wait(state);
         }
         state.visible_seq_no = seq_no;
@@ -522,6 +532,8 @@ impl KeyValueStore {
         #[cfg(rescrv_blue_verif)]
         crate::verif::point("kvs.write.finish.locked", [verif_seq_no, state.seq_no, 0]);
         self.wait_list.notify_head();
+        #[cfg(rescrv_blue_verif)]
+        verif_failed.disarm();
         Ok(())
     }
 
